@@ -88,7 +88,7 @@ def coq_cone(vfile):
                     todo.append(name[len('LruV.'):].replace('.', '/') + '.v')
     return seen
 
-def proof_side(pid):
+def proof_side(pid, tier='quick'):
     cfg = PROPS[pid]
     res = dict(ok=True, problems=[], theorems=[], obligations=0, discharged=0, axioms=[], files=[])
     ok, log = coq_build()
@@ -145,6 +145,13 @@ def proof_side(pid):
         missing = [t for t in cfg.get('theorems', []) if t not in thms]
         if missing: res['ok'] = False; res['problems'].append('property theorem(s) missing from %s: %s' % (vfile, ', '.join(missing)))
         res['print_assumptions'] = dict(commands=n_pa, closed=closed)
+        if tier == 'thorough':
+            # independent re-check of the compiled property file and everything it depends on
+            rc, out = sh('timeout 1500 coqchk -silent -o -Q . LruV LruV.Properties.%s' % pid, cwd=coq, timeout=1600)
+            ax = re.search(r'\* Axioms:\s*(.*?)\n\s*\n', out + '\n\n', re.S)
+            res['coqchk'] = dict(exit=rc, axioms=(ax.group(1).strip() if ax else out[-300:]))
+            if rc != 0 or not ax or ax.group(1).strip() != '<none>':
+                res['ok'] = False; res['problems'].append('coqchk -o on Properties/%s.vo: %s' % (pid, (ax.group(1).strip() if ax else out[-300:])))
     return res
 
 # ------------------------------------------------------------------------------------------------
@@ -414,7 +421,7 @@ def main():
         except Exception as ex:
             ok_s, det = False, dict(problems=['sig_check.c19_static raised %r' % (ex,)], witness=None)
         static = (ok_s, det)
-    proof = proof_side(pid)
+    proof = proof_side(pid, tier)
     corr = correspondence(tier, seed)
     violations = []          # (replay path, description, no_input_found)
     if static is not None and not static[0]:
@@ -509,7 +516,7 @@ def main():
             checker_cmd='make -C coq (coq_makefile, coqc 8.16.1, full .vo) && coqc -Q coq LruV coq/Properties/%s.v ; audit: no Admitted/admit/Axiom/Parameter/Conjecture/guard-off in coq/, Print Assumptions closed or allow-listed' % pid,
             trusted_base=TRUSTED_BASE + cfg.get('trusted_extra', []),
             theorems=proof['theorems'], axioms_reported=proof['axioms'], print_assumptions=proof.get('print_assumptions'),
-            proof_problems=proof['problems'], static_c19=(None if static is None else dict(ok=static[0], roots=static[1].get('roots'), functions=static[1].get('functions'), functions_with_write_primitive=static[1].get('functions_with_write_primitive'), clone=static[1].get('clone'), not_covered=static[1].get('not_covered'))),
+            proof_problems=proof['problems'], coqchk=proof.get('coqchk'), static_c19=(None if static is None else dict(ok=static[0], roots=static[1].get('roots'), functions=static[1].get('functions'), functions_with_write_primitive=static[1].get('functions_with_write_primitive'), clone=static[1].get('clone'), not_covered=static[1].get('not_covered'))),
             traces_validated_against_impl=tot_traces, evaluations=tot_steps, distinct_nontrivial=nontriv,
             rule='one evaluation = one observed step (pre-state, operation, result, post-state) of the real LruCache, checked against the extracted Coq model started from the observed pre-state and against the extracted monitors; distinct = distinct (operation, pre-state entries, limit) triples; non-trivial = pre-state non-empty',
             components_checked={k: v for k, v in sorted(checked.items()) if k in comp_table(cfg)},
